@@ -55,6 +55,7 @@ def leaves_1d():
 
     L["Affine"] = (lambda: T.PointwiseAffineTransform(shift=0.3, scale=-1.7), "R", "R")
     L["LeakyReLU"] = (lambda: T.LeakyReLU(0.3), "R", "R")
+    L["LeakyReLU:steep"] = (lambda: T.LeakyReLU(2.5), "R", "R")  # a negative slope above 1 is legal (max(x, s x) is no longer the map)
     L["LogTanh"] = (lambda: T.LogTanh(1), "R", "R")
     L["LogTanh:c0.5"] = (lambda: T.LogTanh(0.5), "R", "R")
     L["LogTanh:c2"] = (lambda: T.LogTanh(2.0), "R", "R")
